@@ -180,8 +180,14 @@ fn transform_js<R: Read>(
 ) -> Result<RewrittenOutput, Error> {
     let mut transform_status = TransformStatus::not_modified(config);
 
+    #[cfg(datadog_dd_native_iast_rewriter_js_verif)]
+    crate::verif_hooks::tap("ast_in", &program);
+
     let mut block_transform_visitor = BlockTransformVisitor::default(&mut transform_status, config);
     program.visit_mut_with(&mut block_transform_visitor);
+
+    #[cfg(datadog_dd_native_iast_rewriter_js_verif)]
+    crate::verif_hooks::tap("ast_out", &program);
 
     let literals_result = get_literals(config.literals, file, &mut program, compiler);
     let comments = &compiler.comments().clone() as &dyn Comments;
@@ -416,3 +422,6 @@ pub fn debug_js(code: String) -> Result<RewrittenOutput> {
         })
     });
 }
+
+#[cfg(datadog_dd_native_iast_rewriter_js_verif)]
+pub mod verif;
